@@ -5,7 +5,7 @@
                                                         pass; the demonstration must fail with and pass without the
                                                         change; then the named checks (default: meta.json "property")
                                                         run against it (VERIF_REPO); result written into meta.json
-  mutants.py all [--wall 40]                            every seeded change
+  mutants.py all [prefix] [--wall 40]                   every seeded change (whose id starts with prefix)
   mutants.py table                                      summary table (markdown) from the meta.json files
 No change is ever applied to /repo itself by this tool; worktrees live under /tmp and are removed afterwards.
 """
@@ -26,36 +26,64 @@ def sh(cmd, **kw):
     return subprocess.run(cmd, capture_output=True, text=True, **kw)
 
 
+IT_LOCK = __import__("threading").Lock()   # the integration tests bind a fixed port: one run at a time
+
+
 def unit_suite(wt):
-    env = dict(os.environ, PYTHONPATH="%s/src:%s/tests" % (wt, wt))
-    out = tempfile.mktemp(suffix=".xml", dir="/tmp")
-    sh(["/venv/bin/python", "-m", "pytest", "-q", "-p", "no:cacheprovider", "--timeout=900", "--continue-on-collection-errors",
-        "tests", "--junitxml=" + out], cwd=wt, env=env)
     import xml.etree.ElementTree as ET
+    env = dict(os.environ, PYTHONPATH="%s/src:%s/tests" % (wt, wt))
     passed = set()
-    try:
-        for tc in ET.parse(out).getroot().iter("testcase"):
-            if not list(tc):
-                passed.add("%s::%s" % (tc.get("classname"), tc.get("name")))
-    finally:
-        if os.path.exists(out):
-            os.unlink(out)
+    for part, lock in (("tests/unit_tests", None), ("tests/it_tests", IT_LOCK)):
+        out = tempfile.mktemp(suffix=".xml", dir="/tmp")
+        if lock:
+            lock.acquire()
+        try:
+            sh(["/venv/bin/python", "-m", "pytest", "-q", "-p", "no:cacheprovider", "--timeout=900",
+                "--continue-on-collection-errors", part, "--junitxml=" + out], cwd=wt, env=env)
+            for tc in ET.parse(out).getroot().iter("testcase"):
+                if not list(tc):
+                    passed.add("%s::%s" % (tc.get("classname"), tc.get("name")))
+        except (OSError, ET.ParseError):
+            pass
+        finally:
+            if lock:
+                lock.release()
+            if os.path.exists(out):
+                os.unlink(out)
     missing = [t for t in BASE["stable_pass"] if t not in passed]
     return missing
 
 
-def evaluate(mid, checks=None, wall="40", suite=True):
+def make_worktree(mid, meta, d):
+    """Scratch worktree of /repo HEAD with the change applied; when the patch no longer applies to HEAD (a later fix
+    rewrote the lines it touches) the commit pinned in meta["base"] is used instead and recorded."""
+    for base in ("HEAD", meta.get("base")):
+        if base is None:
+            continue
+        wt = tempfile.mkdtemp(prefix="mut_%s_" % mid, dir="/tmp")
+        os.rmdir(wt)
+        sh(["git", "-C", "/repo", "worktree", "add", "-q", "--detach", wt, base])
+        a = sh(["git", "-C", wt, "apply", "--check", os.path.join(d, "patch.diff")])
+        if a.returncode == 0:
+            return wt, base, None
+        err = a.stderr[-300:]
+        drop_worktree(wt)
+    return None, None, err
+
+
+def drop_worktree(wt):
+    sh(["git", "-C", "/repo", "worktree", "remove", "--force", wt])
+    shutil.rmtree(wt, ignore_errors=True)
+
+
+def confirm(mid):
+    """Demonstration fails with / passes without the change, and the unit suite still passes with it."""
     d = os.path.join(SEEDED, mid)
-    meta_p = os.path.join(d, "meta.json")
-    meta = json.load(open(meta_p)) if os.path.exists(meta_p) else {"id": mid}
-    checks = checks or meta.get("checks") or [meta["property"]]
-    wt = tempfile.mkdtemp(prefix="mut_%s_" % mid, dir="/tmp")
-    os.rmdir(wt)
-    # a seeded change is a patch against the tree it was written for: meta["base"] pins that commit when the patch no
-    # longer applies to HEAD (a later fix rewrote the lines it touches)
-    base = meta.get("base", "HEAD")
-    sh(["git", "-C", "/repo", "worktree", "add", "-q", "--detach", wt, base])
-    res = {"base_commit": sh(["git", "-C", wt, "rev-parse", "--short", "HEAD"]).stdout.strip()}
+    meta = json.load(open(os.path.join(d, "meta.json")))
+    wt, base, err = make_worktree(mid, meta, d)
+    if wt is None:
+        return {"apply": "FAILED: " + err}
+    res = {"base": base, "base_commit": sh(["git", "-C", wt, "rev-parse", "--short", "HEAD"]).stdout.strip()}
     try:
         demo = next((f for f in os.listdir(d) if f.startswith("demo") and f.endswith(".py")), None)
         env = dict(os.environ, PYTHONPATH="%s/src:%s/tests" % (wt, wt))
@@ -63,20 +91,38 @@ def evaluate(mid, checks=None, wall="40", suite=True):
             shutil.copy(os.path.join(d, demo), os.path.join(wt, demo))
             r0 = sh(["/venv/bin/python", demo], cwd=wt, env=env, timeout=300)
             res["demo_without_change_rc"] = r0.returncode
-        a = sh(["git", "-C", wt, "apply", os.path.join(d, "patch.diff")])
-        if a.returncode != 0:
-            res["apply"] = "FAILED: " + a.stderr[-300:]
-            meta["result"] = res
-            json.dump(meta, open(meta_p, "w"), indent=1)
-            print(mid, "patch does not apply:", a.stderr[-200:])
-            return meta
+        sh(["git", "-C", wt, "apply", os.path.join(d, "patch.diff")])
         if demo:
             r1 = sh(["/venv/bin/python", demo], cwd=wt, env=env, timeout=300)
             res["demo_with_change_rc"] = r1.returncode
             res["demo_output_with_change"] = (r1.stdout + r1.stderr)[-400:]
-        if suite:
-            missing = unit_suite(wt)
-            res["baseline_tests_missing_with_change"] = missing
+        res["baseline_tests_missing_with_change"] = unit_suite(wt)
+    finally:
+        drop_worktree(wt)
+    return res
+
+
+def evaluate(mid, checks=None, wall="40", suite=True, confirmed=None):
+    d = os.path.join(SEEDED, mid)
+    meta_p = os.path.join(d, "meta.json")
+    meta = json.load(open(meta_p)) if os.path.exists(meta_p) else {"id": mid}
+    checks = checks or meta.get("checks") or [meta["property"]]
+    res = confirmed if confirmed is not None else (confirm(mid) if suite else {})
+    if "apply" in res:
+        meta["result"] = res
+        json.dump(meta, open(meta_p, "w"), indent=1)
+        print(mid, "patch does not apply:", res["apply"][-200:])
+        return meta
+    wt, base, err = make_worktree(mid, meta, d)
+    if wt is None:
+        meta["result"] = {"apply": "FAILED: " + err}
+        json.dump(meta, open(meta_p, "w"), indent=1)
+        print(mid, "patch does not apply:", err[-200:])
+        return meta
+    res.setdefault("base", base)
+    res.setdefault("base_commit", sh(["git", "-C", wt, "rev-parse", "--short", "HEAD"]).stdout.strip())
+    try:
+        sh(["git", "-C", wt, "apply", os.path.join(d, "patch.diff")])
         det = {}
         for cid in checks:
             env2 = dict(os.environ, VERIF_REPO=wt, VERIF_WALL=str(wall))
@@ -88,19 +134,34 @@ def evaluate(mid, checks=None, wall="40", suite=True):
                 det[cid]["harness"] = p.stdout[-400:]
         res["checks"] = det
         res["detected_by"] = sorted(c for c, v in det.items() if v["rc"] == 1)
+        if not suite and "result" in meta:
+            for k in ("demo_without_change_rc", "demo_with_change_rc", "demo_output_with_change",
+                      "baseline_tests_missing_with_change"):
+                if k in meta["result"] and k not in res:
+                    res[k] = meta["result"][k]
         meta["result"] = res
         json.dump(meta, open(meta_p, "w"), indent=1)
-        print("%-34s property %s: demo %s/%s, suite %s, detected by %s %s" % (
-            mid, meta.get("property"), res.get("demo_without_change_rc"), res.get("demo_with_change_rc"),
+        print("%-34s property %s (on %s): demo %s/%s, suite %s, detected by %s %s" % (
+            mid, meta.get("property"), res["base_commit"], res.get("demo_without_change_rc"), res.get("demo_with_change_rc"),
             "ok" if not res.get("baseline_tests_missing_with_change") else "BROKEN %s" % res["baseline_tests_missing_with_change"][:2],
-            res["detected_by"] or "NOBODY", {c: v["signatures"][:2] for c, v in det.items() if v["rc"] == 1}))
+            res["detected_by"] or "NOBODY", {c: v["signatures"][:2] for c, v in det.items() if v["rc"] == 1}), flush=True)
     finally:
-        sh(["git", "-C", "/repo", "worktree", "remove", "--force", wt])
-        shutil.rmtree(wt, ignore_errors=True)
+        drop_worktree(wt)
         for f in os.listdir(os.path.join(HERE, "replays")):
             if f.endswith(".json"):
                 os.remove(os.path.join(HERE, "replays", f))
     return meta
+
+
+def evaluate_all(mids, wall, suite):
+    """Demonstrations and unit suites run 8 at a time first; the checks then run one after another with all cores."""
+    confirmed = {}
+    if suite:
+        from concurrent.futures import ThreadPoolExecutor
+        with ThreadPoolExecutor(8) as ex:
+            confirmed = dict(zip(mids, ex.map(confirm, mids)))
+    for mid in mids:
+        evaluate(mid, None, wall, suite=suite, confirmed=confirmed.get(mid))
 
 
 def table():
@@ -125,8 +186,8 @@ if __name__ == "__main__":
     if args[0] == "eval":
         evaluate(args[1], checks, wall, suite="--no-suite" not in args)
     elif args[0] == "all":
-        for mid in sorted(os.listdir(SEEDED)):
-            if os.path.exists(os.path.join(SEEDED, mid, "patch.diff")):
-                evaluate(mid, None, wall, suite="--no-suite" not in args)
+        only = args[1] if len(args) > 1 and not args[1].startswith("--") else ""
+        evaluate_all([mid for mid in sorted(os.listdir(SEEDED)) if mid.startswith(only)
+                      and os.path.exists(os.path.join(SEEDED, mid, "patch.diff"))], wall, "--no-suite" not in args)
     elif args[0] == "table":
         table()
